@@ -48,9 +48,34 @@ def make_program(st, name, profile, prop, force=None):
 def corrupt(text, t):
     """One text-store fault; -> (corrupted text, fault descriptor)."""
     n = len(text)
-    kind = t.weighted([("truncate", 4), ("flip", 4), ("dup", 1), ("drop", 1.5), ("token", 2), ("torn", 1), ("number", 1.5)])
+    kind = t.weighted([("truncate", 4), ("flip", 4), ("dup", 1), ("drop", 1.5), ("token", 2), ("torn", 1), ("number", 1.5), ("decl", 1.2), ("bom", 0.5)])
     if n == 0:
         return text, {"kind": "none"}
+    if kind == "bom":
+        # a byte order mark in front (files saved by some editors) and an illegal character
+        # at the start of a token of the first line: either the mark itself is the first
+        # offending character (line 1 column 1) or the position counts it
+        eol = text.find("\n") if "\n" in text else n
+        starts = [i for i in range(0, max(eol, 1)) if i < n and not text[i].isspace() and (i == 0 or text[i - 1].isspace())]
+        if not starts or "//" in text[:eol] or "/*" in text[:eol]:
+            kind = "flip"
+        else:
+            o = t.choice(starts)
+            return "\ufeff" + text[:o] + "$" + text[o + 1 :], {"kind": "flip", "at": o + 1, "ch": "$", "bom": True}
+    if kind == "decl":
+        # an extra declaration line whose names are taken from the text itself (a second
+        # register sized by the first, a map of a let, a let named like a macro ...)
+        import re
+
+        if "//" in text or "/*" in text:
+            kind = "truncate"
+        else:
+            names = sorted(set(re.findall(r"[A-Za-z_][A-Za-z0-9_]*", text)) - {"let", "register", "map", "macro", "loop", "subcircuit", "from", "usepulses"}) or ["q"]
+            a_, b_ = t.choice(names), t.choice(names)
+            line = t.choice(["register z[%s]" % a_, "register %s[2]" % a_, "map z %s" % a_, "map z %s[%s]" % (a_, b_), "map z %s[0:%s]" % (a_, b_), "let z %s" % a_, "let %s 1" % a_, "macro %s %s { }" % (a_, b_), "loop %s { }" % a_, "%s %s" % (a_, b_), "%s[%s]" % (a_, b_)])
+            bounds = [0] + [i + 1 for i, ch in enumerate(text) if ch == "\n"]
+            at = t.choice(bounds)
+            return text[:at] + line + "\n" + text[at:], {"kind": "decl", "at": at, "line": line}
     if "usepulses" in text and t.chance(0.12):
         # relative / absolute confusion in a pulse import
         i = text.find("from .")
@@ -118,7 +143,8 @@ class Session:
         self.role = role
         self.clock = seams.StepClock()
         GS.VARIANT = plan.get("gateset_variant", 0)
-        self.G = GS.build_gateset(style=plan.get("gateset_style", "direct"))
+        GS.restore_stored()
+        self.G = GS.build_gateset(style=plan.get("gateset_style", "direct"), stored=bool(plan.get("gateset_stored")))
         if plan.get("gateset") == "nobusy":
             # a native gate table that lacks prepare_all / measure_all
             self.G = {k: v for k, v in self.G.items() if k not in GS.BUSY}
@@ -460,12 +486,25 @@ class Session:
         except Exception:
             ExecutionResult = ()
         if isinstance(v, ExecutionResult):
+            try:
+                return self._result_digest(v)
+            except RecursionError:
+                raise
+            except Exception as e:
+                # (reading a returned result raised: part of what the result is)
+                return "unreadable-result:" + type(e).__name__
+        return self._value_digest_other(v)
+
+    def _result_digest(self, v):
+        if True:
             out = []
             for sc in v.subcircuits:
                 sv = getattr(sc, "state_vector", None)
                 out.append((sc.index, None if sv is None else [repr(complex(x)) for x in sv], [int(r.as_int) for r in sc.readouts], [float(x) for x in sc.relative_frequency_by_int]))
             out.append([(int(r.as_int), r.index, r.subcircuit.index) for r in v.readouts])
             return hexdigest(out)
+
+    def _value_digest_other(self, v):
         if isinstance(v, str):
             import re
 
@@ -517,6 +556,11 @@ class Session:
             d = snapshot.diff_path(self.g_snap, g)
             self.viol.add("C11", "gate_table_frozen", "mutated", opname, "native gate table changed after %s%s: %s" % (opname, stage, "; ".join(d)), op=j)
             self.g_snap = g
+        changed = GS.stored_changed()
+        if changed:
+            # the array a definition hands out on every call belongs to the gate table too
+            self.viol.add("C11", "gate_table_frozen", "mutated", opname, "the stored matrix of %s was modified in place after %s%s" % (", ".join(changed), opname, stage), op=j)
+            GS.restore_stored()
 
 
 def budget_parse(text):
@@ -622,7 +666,7 @@ def plan_c11(run_seed):
                 nested["override"] = {}
             op["nested"] = {"at": t.randrange(6), "op": nested}
         ops.append(op)
-    return {"engine": "E1", "prop": "C11", "run_seed": run_seed, "texts": texts, "ops": ops, "gateset": t.weighted([("full", 5), ("nobusy", 1)]), "gateset_style": t.choice(["direct", "direct", "copied"]), "gateset_variant": t.randrange(4), "tapes": None}
+    return {"engine": "E1", "prop": "C11", "run_seed": run_seed, "texts": texts, "ops": ops, "gateset": t.weighted([("full", 5), ("nobusy", 1)]), "gateset_style": t.choice(["direct", "direct", "copied"]), "gateset_variant": t.randrange(4), "gateset_stored": t.chance(0.4), "tapes": None}
 
 
 def output_list_for(sess, op, entry_ti, c):
@@ -1000,6 +1044,47 @@ def plan_c16(run_seed):
                 else:
                   c_["args"][t.randrange(len(c_["args"]))] = t.choice([["num", 1.5], ["num", 2.0], ["num", 1], ["id", rn], ["item", rn, 0], ["num", -1], ["raw", "1.0e999"], ["raw", "-2.0E+400"]])
                 e["exec"] = False
+        if t.chance(0.15) and e["prog"].get("reg"):
+            # a name of the wrong kind: some identifier slot (register size, map source,
+            # index or bound, loop count, gate argument, indexed name) refers to another
+            # declared thing - a register where a let is expected, a macro where a qubit is
+            pr = e["prog"]
+            names = [x[0] for x in pr["lets"]] + [pr["reg"][0]] + [m["name"] for m in pr["maps"]] + [m["name"] for m in pr["macros"]]
+            for m in pr["macros"]:
+                names += list(m["params"])
+            names += ["Rx", "prepare_all"]
+            if t.chance(0.3):
+                # a second register (illegal in itself, but it is only noticed at the end of
+                # the build) gives the other slots a register name to be confused with
+                e["prog"] = pr = dict(pr)
+                pr["extra_regs"] = [["z", t.choice([1, 2, 3])]]
+                names += ["z", "z", "z"]
+            slots = []  # (container, key)
+            if isinstance(pr["reg"][1], str) or t.chance(0.3):
+                slots.append((pr["reg"], 1))
+            for m in pr["maps"]:
+                slots.append((m, "src"))
+                for k_ in ("idx", "start", "stop", "step"):
+                    if isinstance(m.get(k_), str) or (m.get(k_) is not None and t.chance(0.2)):
+                        slots.append((m, k_))
+            for st_ in progast.all_statements(pr):
+                if st_["k"] in ("loop", "sub") and (isinstance(st_.get("count"), str) or (st_.get("count") is not None and t.chance(0.3))):
+                    slots.append((st_, "count"))
+                if st_["k"] == "gate":
+                    for a in st_["args"]:
+                        if a[0] == "id":
+                            slots.append((a, 1))
+                        elif a[0] == "item":
+                            slots.append((a, 1))
+                            if isinstance(a[2], str) or t.chance(0.2):
+                                slots.append((a, 2))
+            if slots and names:
+                cont, key = t.choice(slots)
+                other = [n_ for n_ in names if n_ != cont[key]]
+                if other:
+                    cont[key] = t.choice(other)
+                    e["exec"] = False
+                    e["name_confusion"] = True
         if t.chance(0.12):
             # unusual but lexically legal: a negative loop or subcircuit count
             loops = [x for x in progast.all_statements(e["prog"]) if x["k"] in ("loop", "sub")]
@@ -1154,7 +1239,9 @@ def check_type(S, j, op, o, text, allowed_extra=()):
                 while lo > 0 and not text[lo - 1].isspace():
                     lo -= 1
                 ok_cols = range(lo - text.rfind("\n", 0, at), exact[1] + 1)
-                if line != exact[0] or col not in ok_cols:
+                if fd.get("bom") and (line, col) == (1, 1):
+                    S.probe("byte_order_mark_reported_as_first_offender")
+                elif line != exact[0] or col not in ok_cols:
                     S.viol.add("C16", "parse_error_position", "wrong_position", o["where"], "character %r at line %d column %d reported at line %r column %r" % (text[at], exact[0], exact[1], line, col), op=j)
                 else:
                     S.probe("exact_position_checked")
@@ -1675,7 +1762,7 @@ def exec_c10(plan):
             try:
                 R0 = progast.resolve(e0["prog"], e0.get("ov") or {}, executable=True)
                 strict = True
-                blocks_a = bool(R0.features & {"register_macro_arg", "param_indexing"})
+                blocks_a = bool(R0.features & {"register_macro_arg", "param_indexing", "param_hides_register"})
             except progast.Invalid:
                 strict = False
 
@@ -1692,6 +1779,18 @@ def exec_c10(plan):
             except extract.Unresolvable as e:
                 return None
             return (m, extract.header_view(c, env))
+
+        _start_ok = {}
+
+        def start_resolvable(env):
+            key = hexdigest(sorted((env or {}).items()))
+            if key not in _start_ok:
+                try:
+                    extract.meaning(c0, env, with_counts=True)
+                    _start_ok[key] = True
+                except extract.Unresolvable:
+                    _start_ok[key] = False
+            return _start_ok[key]
 
         def legality(c, label, j):
             og = seams.outcome_of(lambda: generate_jaqal_program(c), S.clock, BUD)
@@ -1710,8 +1809,13 @@ def exec_c10(plan):
             try:
                 m1 = extract.meaning(c, cur[0], with_counts=True)
                 m2 = extract.meaning(orp["value"], cur[0], with_counts=True)
-            except extract.Unresolvable:
+            except extract.Unresolvable as ex_:
                 S.probe("legality_unresolvable")
+                if start_resolvable(cur[0]):
+                    # the circuit the passes started from has a meaning under this dictionary;
+                    # a pass that succeeded cannot have produced one that has none (an
+                    # unbound parameter at top level, say)
+                    S.viol.add("C10", "result_is_legal_circuit", "no_meaning", "", "after %s the circuit (or its re-parsed text) has no meaning although the start circuit has one: %s" % (label, ex_), op=j)
                 return
             if m1 != m2:
                 S.viol.add("C10", "result_is_legal_circuit", "mismatch", "", "after %s the re-parsed text means something else" % label, op=j)
